@@ -231,6 +231,11 @@ func (s *scanner) stateBegin(c byte) (state, error) {
 		return scanSkip, nil
 	}
 
+	if s.isAnnotationStart(c) && s.index < s.dataSize && (s.data[s.index] == '/' || s.data[s.index] == '*') {
+		// A comment before the enum values.
+		return scanSkip, s.switchToAnnotation()
+	}
+
 	if c != '[' {
 		err := errors.NewDocumentError(s.file, errors.ErrEnumArrayExpected)
 		err.SetIndex(s.index - 1)
